@@ -38,7 +38,7 @@ Proof.
   - binv H. inversion H; subst. apply need_len in E. lia.
   - (* String *) binv H. pose proof (read_uptoN_len n b) as L. destruct (read_uptoN n b) as [p r'']. inversion H; subst. cbn [snd] in L.
     unfold plen_string in E. binv E. apply get_u_len in E0. destruct (_ =? 255).
-    + binv E. binv E. inversion E; subst. apply get_u_len in E1. apply need_len in E2. lia.
+    + apply get_u_len in E. lia.
     + inversion E; subst. lia.
   - (* Blob *) binv H. pose proof (read_uptoN_len n b) as L. destruct (read_uptoN n b) as [p r'']. destruct (_ =? _); [|discriminate]. inversion H; subst. cbn [snd] in L.
     unfold plen_blob in E. binv E. apply get_u_len in E0. destruct (_ =? 255).
@@ -100,13 +100,7 @@ Proof.
   - intros [= <-]. eapply get_u_err; eauto.
 Qed.
 Lemma plen_string_err bs e : plen_string bs = Err e -> e = EStruct.
-Proof.
-  unfold plen_string. destruct (get_u 1 bs) as [[n r]|e0] eqn:E; cbn [bind].
-  - destruct (n =? 255); [|discriminate]. destruct (get_u 2 r) as [[m r1]|e1] eqn:E1; cbn [bind].
-    + destruct (need 1 r1) as [[? ?]|e2] eqn:E2; cbn [bind]; [discriminate|]. intros [= <-]. eapply need_err; eauto.
-    + intros [= <-]. eapply get_u_err; eauto.
-  - intros [= <-]. eapply get_u_err; eauto.
-Qed.
+Proof. exact (plen_blob_err bs e). Qed.
 
 (* a value decoder has no budget of its own: it can never report EFuel *)
 Lemma decode_never_fuel : forall t hdr bs, decode hdr t bs <> Err EFuel.
